@@ -104,6 +104,15 @@ theorem crc8_spec (bytes : List Nat) (hb : AllBytes bytes) :
     ∃ q, msgPoly bytes * 256 ^^^ 255 * 256 ^ bytes.length = clmul q (2 ^ 8 + 7) ^^^ crc8 bytes := by
   exact ⟨crc8_lt bytes, crc8_division bytes hb⟩
 
+/-- ... and that remainder is unique: any `r < 2^8` with `msg · x^8 + 0xFF · x^(8n) = q ⊗ G + r` for some `q`
+    equals `crc8 msg`. So the checksum word is *the* CRC-8 (0x07 / 0xFF) of the header, not merely what the
+    code happens to compute. -/
+theorem crc8_unique (bytes : List Nat) (hb : AllBytes bytes) (q r : Nat) (hr : r < 256)
+    (h : msgPoly bytes * 256 ^^^ 255 * 256 ^ bytes.length = clmul q (2 ^ 8 + 7) ^^^ r) :
+    r = crc8 bytes := by
+  obtain ⟨q', hq'⟩ := crc8_division bytes hb
+  exact crc_remainder_unique _ q r q' (crc8 bytes) h hq' hr (crc8_lt bytes)
+
 /-- **Generic write (`EepromRange::write`).** On a word-aligned window below 64 KiB (what `EepromRange::new`
     produces without overflow), in both build modes: the call stores `k = min ⌈len/2⌉ (window words left)`
     words taken from the buffer padded with one zero byte if its length is odd, at consecutive word addresses
